@@ -7,6 +7,19 @@ pub struct VotingProposalBuilder {
     proposals: BTreeMap<VotingProposal, Option<ScriptWitnessType>>,
 }
 
+impl VotingProposalBuilder {
+    // the signers the policy script sources of the proposals declare
+    pub(crate) fn get_required_signers(&self) -> Ed25519KeyHashes {
+        let mut set = Ed25519KeyHashes::new();
+        for script_witness in self.proposals.values().flatten() {
+            if let Some(required_signers) = script_witness.get_required_signers() {
+                set.extend_move(required_signers);
+            }
+        }
+        set
+    }
+}
+
 #[wasm_bindgen]
 impl VotingProposalBuilder {
     pub fn new() -> Self {
